@@ -143,6 +143,8 @@ impl EventSource for Timer {
     }
 
     fn register(&mut self, poll: &mut Poll, token_factory: &mut TokenFactory) -> crate::Result<()> {
+        // Registering an already armed timer re-arms it instead of arming it a second time.
+        self.unregister(poll)?;
         // Only register a deadline if we haven't overflowed.
         if let Some(deadline) = self.deadline {
             let wheel = poll.timers.clone();
